@@ -414,8 +414,15 @@ func (w *world) Invariant(e *sim.Env) {
 
 func (w *world) Idle(e *sim.Env) {}
 
+// Quiet: create functions sleep at most milliseconds here, so hours of
+// simulated time without any goroutine moving while calls are outstanding is a
+// deadlock (e.g. an in-flight entry that is never released).
 func (w *world) Quiet(e *sim.Env) bool {
-	e.Inconclusive("quiet horizon reached with work remaining: " + strings.Join(e.RT.All(), "; "))
+	prop := w.prop()
+	if prop == "C11" {
+		prop = "C09"
+	}
+	e.Violate(prop, "stuck", "cache calls are outstanding but no goroutine can run any more: %s", strings.Join(e.RT.All(), "; "))
 	return true
 }
 
